@@ -236,7 +236,7 @@ def seeds(rng):
 
 
 def gen_custom(rng):
-    names = [':--a', ':--b', ':--A', ':--c-d', ':--\\31 x', '--a', ':-a', ':--', ':--a b', ':a', '', ':--é', ':--B', ':--x\\', ':--(']
+    names = [':--a', ':--b', ':--A', ':--c-d', ':--\\31 x', '--a', ':-a', ':--', ':--a b', ':a', '', ':--é', ':--B', ':--x\\', ':--(', ':--a\n', ':--b\n', ':--c-d\n', ':--a\n\n', '\n:--a', ':--a ']
     defs = ['a', '.x, #y', ':--a', ':--b', ':--a > :--b', ':is(:--a, p)', '', ' ', 'a,', ':--c-d:not(:--a)', ':nope', '[', ':--zz',
             ':--A', 'p:--a:--b', '@Pfoo', 'a::before', ':has(:--a)', ':nth-child(2 of :--b)', ':--\\31 x', '\\110000']
     m = {}
